@@ -12,12 +12,11 @@ import (
 
 func init() {
 	register(&Property{
-		ID:  "C20",
-		Run: runC20,
+		ID:          "C20",
+		Run:         runC20,
 		Explanation: "Confinement proof (not a race detector): for every field of every discipline struct (structs that own a `go` statement) all accesses are collected from SSA FieldAddr/Field chains, map updates, element stores, append/copy/delete and calls that mutate a parameter's referent; every instruction gets the set of execution contexts it can run in (constructor with the set of goroutines already spawned, goroutine entry, public API method) from the call graph and a forward dataflow over the constructors; a field passes iff no write is concurrent with any other access (H1/H2). H3: no package-level variable is written outside init. H4: user maps (Opts.Inputs) are read only in constructor context; exported helpers mutate only memory they allocated (dividers: only their distribution parameter).",
 		NotDecided: []string{
 			"races inside user callbacks (Divider, Handle) and inside third-party breaker",
-			
 		},
 	})
 }
